@@ -10,6 +10,7 @@ import CtyModel.Lemmas.NumRound
 import CtyModel.Lemmas.d02Quo
 import CtyModel.Lemmas.d02Reject
 import CtyModel.Lemmas.d02Coll
+import CtyModel.Lemmas.d02Mod
 namespace CtyModel
 namespace C02
 open Num Value
@@ -502,8 +503,95 @@ theorem index_missing_key_rejected (e : Ty) (es : List Ty) (vs : List Payload) (
     refine ⟨rfl, ?_⟩
     cases es[i]? <;> rfl
 
+/-! ### results that fit are exact; Modulo -/
+
+/-- "Results on integers that fit are exact", ADD (any finite operands, whole or not):
+when the exact sum `s` fits the precision `max pa pb`, the result is `s·2^(min ea eb)`
+itself.  For whole operands (`0 ≤ ea, eb`) that is the integer `a + b`. -/
+theorem add_exact_when_fits (na nb : Bool) (ma mb : Nat) (ea eb : Int) (pa pb : Nat)
+    (hp : 0 < max pa pb) (hs : D02.exactSum na ma ea nb mb eb ≠ 0)
+    (hf : bitlen (D02.exactSum na ma ea nb mb eb).natAbs ≤ max pa pb) :
+    ∃ c : Num, Value.add (numVal (.fin na ma ea pa)) (numVal (.fin nb mb eb pb)) = .ok (numVal c) ∧
+      c.prec = max pa pb ∧ D02.Exact c (D02.exactSum na ma ea nb mb eb) (min ea eb) := by
+  obtain ⟨c, q, h1, h2, h3, h4⟩ := add_rounds_to_nearest_even na nb ma mb ea eb pa pb hp hs
+  obtain ⟨hk, hq⟩ := h4.exact_of_fits hf
+  refine ⟨c, h1, h2, ?_⟩
+  have hk' : bitlen (D02.exactSum na ma ea nb mb eb).natAbs - max pa pb = 0 := by omega
+  rw [hk', hq] at h3
+  simp only [Int.natCast_zero, Int.add_zero] at h3
+  have : (if D02.exactSum na ma ea nb mb eb < 0 then -((D02.exactSum na ma ea nb mb eb).natAbs : Int)
+      else ((D02.exactSum na ma ea nb mb eb).natAbs : Int)) = D02.exactSum na ma ea nb mb eb := by
+    split <;> omega
+  rwa [this] at h3
+
+/-- …SUBTRACT… -/
+theorem sub_exact_when_fits (na nb : Bool) (ma mb : Nat) (ea eb : Int) (pa pb : Nat)
+    (hp : 0 < max pa pb) (hs : D02.exactSum na ma ea (!nb) mb eb ≠ 0)
+    (hf : bitlen (D02.exactSum na ma ea (!nb) mb eb).natAbs ≤ max pa pb) :
+    ∃ c : Num, Value.sub (numVal (.fin na ma ea pa)) (numVal (.fin nb mb eb pb)) = .ok (numVal c) ∧
+      c.prec = max pa pb ∧ D02.Exact c (D02.exactSum na ma ea (!nb) mb eb) (min ea eb) := by
+  obtain ⟨c, q, h1, h2, h3, h4⟩ := sub_rounds_to_nearest_even na nb ma mb ea eb pa pb hp hs
+  obtain ⟨hk, hq⟩ := h4.exact_of_fits hf
+  refine ⟨c, h1, h2, ?_⟩
+  have hk' : bitlen (D02.exactSum na ma ea (!nb) mb eb).natAbs - max pa pb = 0 := by omega
+  rw [hk', hq] at h3
+  simp only [Int.natCast_zero, Int.add_zero] at h3
+  have : (if D02.exactSum na ma ea (!nb) mb eb < 0 then -((D02.exactSum na ma ea (!nb) mb eb).natAbs : Int)
+      else ((D02.exactSum na ma ea (!nb) mb eb).natAbs : Int)) = D02.exactSum na ma ea (!nb) mb eb := by
+    split <;> omega
+  rwa [this] at h3
+
+/-- …MULTIPLY: a product of at most 512 bits is exact, whatever the operand precisions. -/
+theorem mul_exact_when_fits (na nb : Bool) (ma mb : Nat) (ea eb : Int) (pa pb : Nat)
+    (hf : bitlen (ma * mb) ≤ 512) :
+    ∃ c : Num, Value.mul (numVal (.fin na ma ea pa)) (numVal (.fin nb mb eb pb)) = .ok (numVal c) ∧
+      D02.Exact c (NumCmp.sgnm (na != nb) (ma * mb)) (ea + eb) ∧ c.prec = max (max pa pb) c.minPrec := by
+  obtain ⟨c, q, h1, h2, h3, h4⟩ := mul_rounds_to_nearest_even na nb ma mb ea eb pa pb
+  obtain ⟨hk, hq⟩ := h3.exact_of_fits hf
+  refine ⟨c, h1, ?_, h4⟩
+  have hk' : bitlen (ma * mb) - 512 = 0 := by omega
+  rw [hk', hq] at h2
+  simpa using h2
+
+/-- Modulo on known numbers is `D02.modNum` (the Go control flow); with an infinite
+operand it answers what Multiply answers, with a zero divisor it returns the receiver. -/
+theorem mod_known (x y : Num) :
+    Value.mod (numVal x) (numVal y) = (D02.modNum x y).map numVal ∧
+    ((x.isInf || y.isInf) = true → D02.modNum x y = Num.mulCty x y) ∧
+    (x.isInf = false → y.isZero = true → D02.modNum x y = .ok x) :=
+  ⟨D02.mod_num x y, D02.modNum_inf x y, D02.modNum_zero x y⟩
+
+/-- The clause "modulo is the remainder of truncated division by a non-zero divisor"
+(`D02.ModIsTruncRem`, whole operands) is FALSE of the code: 1e17 held at float64
+precision modulo 7 is 16.  The specification side (sign of the dividend, `|r| < |y|`)
+is `D02.truncRem_spec`; int64-built instances on which the clause holds: `D02.mod_instances`. -/
+theorem mod_is_trunc_rem_counterexample :
+    Value.mod (numVal (.fin false 762939453125 17 53)) (intVal 7) = .ok (numVal (.fin false 1 4 53)) ∧
+    (Num.fin false 762939453125 17 53).toInt? = some 100000000000000000 ∧
+    Int.tmod 100000000000000000 7 = 5 ∧ ¬ D02.ModIsTruncRem := by
+  refine ⟨?_, D02.mod_float_counterexample.2.1, D02.mod_float_counterexample.2.2, D02.modIsTruncRem_false⟩
+  show Value.mod (numVal _) (numVal (Num.ofInt 7 64)) = _
+  rw [D02.mod_num, D02.mod_float_counterexample.1]; rfl
+
+/-- what the remainder of truncated division is: sign of the dividend, smaller than the divisor -/
+theorem trunc_rem_spec (X Y : Int) (hY : Y ≠ 0) :
+    Int.tmod X Y = X - Y * Int.tdiv X Y ∧ (Int.tmod X Y).natAbs < Y.natAbs ∧
+    (0 ≤ X → 0 ≤ Int.tmod X Y) ∧ (X ≤ 0 → Int.tmod X Y ≤ 0) := D02.truncRem_spec X Y hY
+
+/-- on these int64-built (and one fractional) instances Modulo IS that remainder -/
+theorem mod_instances :
+    Value.mod (intVal 17) (intVal (-5)) = .ok (intVal 2) ∧
+    Value.mod (intVal (-17)) (intVal 5) = .ok (intVal (-2)) ∧
+    Value.mod (intVal 9223372036854775807) (intVal 1000000007) = .ok (intVal (Int.tmod 9223372036854775807 1000000007)) := by
+  refine ⟨?_, ?_, ?_⟩ <;>
+    (show Value.mod (numVal (Num.ofInt _ 64)) (numVal (Num.ofInt _ 64)) = _
+     rw [D02.mod_num]
+     first | rw [D02.mod_instances.1] | rw [D02.mod_instances.2.1] | rw [D02.mod_instances.2.2.1]
+     rfl)
+
 /-! Non-vacuity of the new hypotheses -/
 example : D02.exactSum false 3 0 true 1 (-1) ≠ 0 := by decide
+example : bitlen (D02.exactSum false 3 0 true 1 (-1)).natAbs ≤ max 53 64 := by decide
 example : D02.RoundNE 5 2 2 1 := ⟨by decide, by decide, by decide, by decide, by decide, by decide⟩
 example : Value.div (numVal (.fin false 1 0 64)) (numVal (.fin false 3 0 64)) =
     .ok (numVal (.fin false 12297829382473034411 (-65) 64)) := by decide
